@@ -15,6 +15,7 @@ import Mathlib.LinearAlgebra.Dimension.Constructions
 import Mathlib.LinearAlgebra.FiniteDimensional.Lemmas
 import Mathlib.LinearAlgebra.Matrix.DotProduct
 import Mathlib.Data.ZMod.Basic
+import Mathlib.Algebra.Field.ZMod
 import PanqecVerif.Proofs.Bits
 import PanqecVerif.Proofs.ValidCode
 
